@@ -70,3 +70,6 @@ package clause
 //@   ensures empty-is-no-condition: len(exprs) == 0 ==> result == nil
 //@   ensures and-group-is-negated-memberwise: len(exprs) == 1 && is(exprs[0], AndConditions) ==> is(result, NotConditions) && result.(NotConditions).Exprs == exprs[0].(AndConditions).Exprs
 //@   ensures otherwise-negates-the-units: len(exprs) > 1 || (len(exprs) == 1 && !is(exprs[0], AndConditions)) ==> is(result, NotConditions) && result.(NotConditions).Exprs == exprs
+//@ func rawNeedsParentheses
+//@   tags C06
+//@   modifies nothing
